@@ -162,6 +162,9 @@ class Sampler:
         :rtype: TensorDict
         """
         self.dataset.batch_size = batch_size
+        # With a prioritised buffer the second argument is the importance-sampling exponent
+        if isinstance(getattr(self.dataset, "buffer", None), PrioritizedReplayBuffer):
+            self.dataset.beta = return_idx
         return next(iter(self.dataloader))
 
     def sample_per(self, batch_size: int, beta: float) -> ExperiencesType:
